@@ -1496,8 +1496,13 @@ pub fn draw_cfg(prop: Prop, t: &mut Tape, thorough: bool) -> ScenCfg {
             }
         }
         Prop::C03 => {
-            cfg.strategy = Strategy::Random { stay: 100 };
-            cfg.waker_driven = true;
+            // Run-to-block histories; in a third of the runs (gen >= 2) the drawn pre-emptive
+            // strategy is kept, so that expiry and abandonment also land while the transmit or
+            // receive side is inside the buffer - "abandoned before completion" has no exception.
+            if !(crate::tape::gen() >= 2 && t.flag(33, 100, "c03_preemptive")) {
+                cfg.strategy = Strategy::Random { stay: 100 };
+                cfg.waker_driven = true;
+            }
             cfg.pdu_timeout_us = t.pick(&[1000u64, 50, 30_000], "timeout");
             cfg.retry = match t.choose(4, "retry") {
                 0 => RetryBehaviour::None,
